@@ -2054,6 +2054,61 @@ def _o_ext(ex, st, a, res):
     return [("C15: ext(p) is the text after the last '.' of the last component", text_eq(txt, e))]
 
 
+def _ext_of(ex, st, c):
+    if c and c[-1].kind == NORMAL:
+        name = c[-1].text
+        for i in range(len(name) - 1, 0, -1):
+            if ex.decide(st, TP.is_ch(name[i], TP.DOT)):
+                return name[i + 1:]
+    return None
+
+
+def _o_concat(ex, st, a, res):
+    kind, txt = res
+    if kind != "ok":
+        return [("C15: concat fails on valid UTF-8 input", B(False))]
+    return [("C15: concat(p, s) appends s without inserting separators", text_eq(txt, a[0] + a[1]))]
+
+
+def _o_trim_ext(ex, st, a, res):
+    kind, txt = res
+    c = comps_of(ex, st, a[0])
+    e = _ext_of(ex, st, c)
+    if kind != "ok":
+        return [("C15: trim_ext fails on valid UTF-8 input", B(False))]
+    if e is None:
+        return [("C15: trim_ext(p) returns p unchanged when there is no extension", toks_eq(comps_of(ex, st, txt), c))]
+    back = txt + [TP.ch(TP.DOT)] + e
+    return [("C15: trim_ext(p) + '.' + ext(p) == p", toks_eq(comps_of(ex, st, back), c))]
+
+
+def _o_name(ex, st, a, res):
+    kind, txt = res
+    c = comps_of(ex, st, a[0])
+    if not c:
+        return [("C15: name(p) fails exactly for a path without components", B(kind == "err"))]
+    if kind != "ok":
+        return [("C15: name(p) fails although p has components", B(False))]
+    e = _ext_of(ex, st, c)
+    base = c[-1].text
+    want = base if e is None else base[:len(base) - len(e) - 1]
+    return [("C15: name(p) is base(p) without the extension", text_eq(txt, want))]
+
+
+SCHEMES = ["file://", "ftp://", "http://", "https://"]
+
+
+def _o_trim_protocol(ex, st, a, res):
+    kind, txt = res
+    p = a[0]
+    low = [M.ascii_lower(c) for c in p]
+    for sch in SCHEMES:
+        k = len(sch)
+        if len(p) >= k and ex.decide(st, M.chars_eq(low[:k], [TP.ch(ord(x)) for x in sch])):
+            return [("C15: trim_protocol removes one leading %s scheme case-insensitively and nothing else" % sch, text_eq(txt, p[k:]))]
+    return [("C15: trim_protocol returns a path without a leading scheme unchanged", text_eq(txt, p))]
+
+
 TEXT_FUNCS = {
     "dir": (r"^fn (sys::fs::path::)?dir\(_1: T\)", 1, _o_dir, 'sys::dir({0}).map(|x| x.to_str().unwrap().to_string()).ok()'),
     "base": (r"^fn (sys::fs::path::)?base\(_1: T\)", 1, _o_lastlike("base"), 'sys::base({0}).ok()'),
@@ -2063,7 +2118,13 @@ TEXT_FUNCS = {
     "trim_last": (r"^fn (sys::fs::path::)?trim_last\(_1: T\)", 1, _o_trim("trim_last"), 'Some(sys::trim_last({0}).to_str().unwrap().to_string())'),
     "mash": (r"^fn (sys::fs::path::)?mash\(_1: T, _2: U\)", 2, _o_mash, 'Some(sys::mash({0}, {1}).to_str().unwrap().to_string())'),
     "ext": (r"^fn (sys::fs::path::)?ext\(_1: T\)", 1, _o_ext, 'sys::ext({0}).ok()'),
+    "concat": (r"^fn (sys::fs::path::)?concat\(_1: T, _2: U\)", 2, _o_concat, 'sys::concat({0}, {1}).map(|x| x.to_str().unwrap().to_string()).ok()'),
+    "trim_ext": (r"^fn (sys::fs::path::)?trim_ext\(_1: T\)", 1, _o_trim_ext, 'sys::trim_ext({0}).map(|x| x.to_str().unwrap().to_string()).ok()'),
+    "name": (r"^fn (sys::fs::path::)?name\(_1: T\)", 1, _o_name, 'sys::name({0}).ok()'),
+    "trim_protocol": (r"^fn (sys::fs::path::)?trim_protocol\(_1: T\)", 1, _o_trim_protocol, 'Some(sys::trim_protocol({0}).to_str().unwrap().to_string())'),
 }
+
+ASCII_ONLY = {"trim_protocol"}  # to_lowercase is modelled for ASCII only
 
 COMPONENT_INLINE = [
     (rx(r"^<Components<'_> as (?:core::iter::)?IteratorExt>::drop$"),
@@ -2108,7 +2169,7 @@ def run_text_funcs(ctx, prop, names, nmax, kmax, tag):
         for shape in shapes:
             texts, cons = [], []
             for ai, n in enumerate(shape):
-                c, cc = sym_text(solver, "tf_%s_%s_%d" % (name, "_".join(map(str, shape)), ai), n)
+                c, cc = sym_text(solver, "tf_%s_%s_%d" % (name, "_".join(map(str, shape)), ai), n, ascii_only=name in ASCII_ONLY)
                 texts.append(c)
                 cons += cc
             g = {"a%d" % i: t for i, t in enumerate(texts)}
@@ -2569,3 +2630,24 @@ fn replay_persist() {
      bounds="every sequence of <= 3 operations from {flush, write of 0|1|2 symbolic bytes} followed by drop, on a write handle and on an append handle with one existing byte; target entry / stored file each present or not")
 def c07_persist(ctx, prop):
     return run_persist(ctx, prop, 3, 2)
+
+
+@job("c15_ext_text", ["C15", "C12"], "quick",
+     functions=["sys::{concat,trim_ext,name} (real MIR; format! modelled through its compiled template)"],
+     bounds="concat: every (path <= 4, s <= 2) Unicode scalars; trim_ext/name: every path text of 0..=5 scalars")
+def c15_ext(ctx, prop):
+    u1 = run_text_funcs(ctx, prop, ["concat"], 4, 2, "c15_concat_text")
+    u2 = run_text_funcs(ctx, prop, ["trim_ext", "name"], 5, 0, "c15_ext_text")
+    for k in ("obligations", "discharged", "queries", "paths", "solver_s"):
+        u2[k] = u2.get(k, 0) + u1.get(k, 0)
+    u2["failures"] = u1["failures"] + u2["failures"]
+    if u1["status"] != "pass" and u2["status"] == "pass":
+        u2["status"], u2["why"] = u1["status"], u1.get("why", "")
+    return u2
+
+
+@job("c15_protocol_text", ["C15", "C12"], "quick",
+     functions=["sys::trim_protocol (real MIR)"],
+     bounds="every ASCII text of 0..=11 chars (to_lowercase is modelled for ASCII only)")
+def c15_protocol(ctx, prop):
+    return run_text_funcs(ctx, prop, ["trim_protocol"], 11, 0, "c15_protocol_text")
